@@ -1,19 +1,37 @@
 """C10 - no datagram exceeds the MTU; accepted MTUs are safe (core part)."""
 import kcp_common as K
+import vcheck as V
 
 META = {
     "enabled": True,
     "engine": "kcp",
     "technique": "Coq invariant proof of the output-size bound over all call sequences incl. SetMtu at any point; differential replay + size monitors",
     "level_text": "Theorem over every operation sequence (SetMtu with any integer at any point included): every datagram handed to the output callback is non-empty and at most mtu bytes, an accepted SetMtu value re-establishes the invariant (so it is honoured from then on without fault) and a refused one changes nothing; the refusal condition is characterised exactly. Tied to kcp.go by differential replay of histories with SetMtu calls (growing, shrinking, out-of-range, with data queued and in flight) and by a size monitor on every callback invocation.",
-    "level_note": K.TRUST + " Session-level accounting (cipher/FEC/AEAD overhead, parity and OOB sizes at the PacketConn) is measured by the frame engine's harness (C09/C19), not proved here.",
+    "level_note": K.TRUST + " The session half (UDPSession.SetMtu acceptance rule; |frame| = |core datagram| + header sizes (+ AEAD overhead) <= MTU; OOB and parity sizes) is proved on the frame engine's transcription (coq/frame/C10sess.v) and measured on every datagram real sessions hand to the PacketConn, with SetMtu at random points of traffic.",
 }
 OBLIGATIONS = ["c10_core_output_size", "c10_history_output_size", "c10_setmtu", "c10_setmtu_refused_iff", "c10_pool_fits"]
 RELEVANT = K.PANICS | K.RESULTS | K.CONFIG | {"sq", "sb"}
 
 
+SESS_OBLIGATIONS = ["c10_setmtu_session", "c10_session_size", "c10_session_size_oob", "c10_parity_size"]
+
+
 def run(ctx):
     K.core_check(ctx, "C10", "C10.v", OBLIGATIONS, RELEVANT,
                  "kcp.go vs coq/kcp/Kcp.v on histories with SetMtu at arbitrary points and all write sizes")
+    core_cov = dict(ctx.coverage)
+    # the session half: sizes at the PacketConn incl. cipher/FEC/AEAD overhead, parity and OOB; UDPSession.SetMtu
+    ctx.prove("frame", "C10sess.v", SESS_OBLIGATIONS)
+    sess_cov = dict(ctx.coverage)
+    rep, _ = V.harness_report(ctx, "^TestVerifC10Sess$|^TestVerifFrameChild$", "C10sess.report.json", files=["frame_test.go"])
+    summ = V.driver_compare(ctx, "frame", ["frame_model"], "frame_driver", "C10sess.log",
+                            "sess.go/fec.go framing vs coq/frame/Frame.v on sessions with SetMtu at random points")
+    ctx.coverage = core_cov
+    ctx.coverage["obligations"] = core_cov.get("obligations", 0) + sess_cov.get("obligations", 0)
+    ctx.coverage["discharged"] = core_cov.get("discharged", 0) + sess_cov.get("discharged", 0)
+    ctx.coverage["checker_cmd"] = core_cov.get("checker_cmd", "") + " ; " + sess_cov.get("checker_cmd", "")
+    ctx.coverage["trusted_base"] = core_cov.get("trusted_base", []) + [t for t in sess_cov.get("trusted_base", []) if t.startswith("Print Assumptions")]
+    ctx.coverage.setdefault("theorems", {}).update(sess_cov.get("theorems", {}))
+    V.merge_report(ctx, rep, summ)
     ctx.coverage["rule"] = ("two-endpoint lossy histories with SetMtu(0,24,25,26,50,100,576,600,1400,1500,1501,1524,2000,-1,65561) on 2-12 % of ticks and writes of 1..256*mss bytes; "
                             "non-trivial = an MTU change was accepted during the history")
